@@ -117,7 +117,8 @@ def _fill(s, spec, ctr, explicit=None):
             setattr(s, key, sub)
             _fill(sub, kind, ctr, explicit)
         elif isinstance(kind, list):
-            _fill(getattr(s, key), kind, ctr)
+            # (created by a bare attribute access, unless the key is spelled like an attribute of the schema class itself)
+            _fill(s[key] if hasattr(cc.Schema, key) else getattr(s, key), kind, ctr)
         elif kind == "EmptyDyn":
             setattr(s, key, cc.Schema(dynamic=True))
         elif kind == "Include":
@@ -210,6 +211,8 @@ def run_job(job, ctx):
             check_schema(ctx, spec, None, bottom_up="explicit-env")
         if "Bool" in json.dumps(spec):
             check_schema(ctx, with_odd_keys(spec), None)
+        if ("Float" in json.dumps(spec) or "Str" in json.dumps(spec)) and "Bounded" not in json.dumps(spec):      # (the Bounded validator reads its sibling by the key "a")
+            check_schema(ctx, with_odd_keys(spec, ODD_KEYS2), None)
         check_growth(ctx, spec)
     ctx.sample({"schema": job["specs"][-1]})
 
@@ -217,9 +220,14 @@ def run_job(job, ctx):
 ODD_KEYS = {"a": "x__y", "b_c": "z_", "port": "p_1__"}     # (a leading underscore is not a field key: the schema keeps such names for itself)
 
 
-def with_odd_keys(spec):
+# keys with upper-case letters, and keys spelled like public methods of the schema class (a key is looked up as a key)
+ODD_KEYS2 = {"a": "maxConn", "b_c": "make_type", "port": "validator"}
+
+
+def with_odd_keys(spec, table=None):
     """the same tree with identifier keys that contain doubled / trailing / trailing underscores and digits"""
-    return [[ODD_KEYS.get(k, k), with_odd_keys(v) if isinstance(v, list) else v] for k, v in spec]
+    table = table or ODD_KEYS
+    return [[table.get(k, k), with_odd_keys(v, table) if isinstance(v, list) else v] for k, v in spec]
 
 
 def check_schema(ctx, spec, only, bottom_up=False):
@@ -238,7 +246,11 @@ def check_schema(ctx, spec, only, bottom_up=False):
             c["only"] = only_
         ctx.violation(fpb + what, "schema %s: %s" % (spec, msg), c, size=len(str(spec)))
 
-    schema = build(spec, bottom_up=bottom_up)
+    try:
+        schema = build(spec, bottom_up=bottom_up)
+    except Exception as exc:  # noqa
+        bad("build-raises", "declaring this schema (legal identifier keys only) raised %r" % (exc,))
+        return
     ctx.states += 1
     env_set = []
     if bottom_up == "explicit-env":
